@@ -69,6 +69,7 @@ class C11(common.ModelProperty):
         "rejected:side-array-length",
         "read-back-checked",
         "default-link-type",
+        "universe-as-adjacency-value",
     ]
 
     def make_config(self, rng):
@@ -83,6 +84,9 @@ class C11(common.ModelProperty):
         cfg["p_bad_shape"] = rng.choice([0.0, 0.15, 0.3])
         cfg["fresh_start"] = rng.random() < 0.3
         cfg["max_universes"] = cfg["nu"] + 6
+        if rng.random() < 0.2:
+            cfg["universe_classes"] = ["Universe", "ClusterUniverse"]
+            cfg["nu"] = max(1, cfg["nu"])
         return cfg
 
     def next_op(self, rng, cfg, st):
@@ -94,6 +98,20 @@ class C11(common.ModelProperty):
             for _ in range(5):
                 if rng.random() < 0.5:
                     op = gen.g_adj_dict(st.gen, rng, st.view, st.namer)
+                    clusters = [
+                        u for u in st.view.universes()
+                        if st.view.snap[u]["cls"] == "ClusterUniverse" and st.view.snap[u]["members"]
+                    ]
+                    if op is not None and clusters and rng.random() < 0.4:
+                        # one row's value is a universe, iterated for its members
+                        i = rng.randrange(len(op["adj"]))
+                        c = rng.choice(clusters)
+                        members = list(st.view.snap[c]["members"])
+                        room = cfg.get("max_links", 10) - len(st.view.edges())
+                        if len(members) <= max(0, room):
+                            op["adj"][i][1] = members
+                            op.setdefault("clusters", {})[op["adj"][i][0]] = c
+                            st.stats["probe:universe-as-adjacency-value"] += 1
                 else:
                     op = gen.g_adj_matrix(
                         st.gen, rng, st.view, st.namer,
